@@ -9,6 +9,36 @@ cd "$HERE"
 [ -n "$(git -C /repo status --porcelain)" ] && { echo "/repo is not clean"; exit 2; }
 names="${*:-$(ls seeded)}"
 mkdir -p /tmp/seedmatrix
+if [ -n "${SEEDMATRIX_JOBS:-}" ]; then
+  # parallel mode: every change gets a throw-away worktree of /repo HEAD (removed after its run) instead of being applied to
+  # /repo itself, $SEEDMATRIX_JOBS at a time; the timing-sensitive C10 rows run one at a time afterwards
+  row() {
+    n="$1"; d="$HERE/seeded/$n"
+    id=$(python3 -c "import json;print(json.load(open('$d/meta.json'))['property'])")
+    wt=/tmp/seedmatrix/wt-$n
+    git -C /repo worktree add -q --detach "$wt" HEAD 2>/dev/null || { echo "$n: no worktree"; return; }
+    if git -C "$wt" apply "$d/patch.diff" 2>/dev/null; then
+      s=$(date +%s)
+      VERIF_REPO="$wt" VERIF_BUILD="$wt/.vbuild" VERIF_OUT="$wt/.vout" "$HERE/run.sh" $id quick > /tmp/seedmatrix/$n.log 2>&1
+      rc=$?
+      python3 "$HERE/tools/seedmatrix_row.py" "$d" "$id" "$rc" "$(( $(date +%s)-s ))" "/tmp/seedmatrix/$n.log" "throw-away worktree of /repo HEAD + patch.diff; VERIF_REPO=<worktree> ./run.sh $id quick"
+    else
+      echo "$n: patch does not apply"
+    fi
+    git -C /repo worktree remove --force "$wt" >/dev/null 2>&1
+  }
+  export -f row; export HERE
+  par=""; ser=""
+  for n in $names; do
+    [ -f seeded/$n/patch.diff ] || continue
+    case "$n" in C10*) ser="$ser $n";; *) par="$par $n";; esac
+  done
+  echo $par | tr ' ' '\n' | xargs -P "$SEEDMATRIX_JOBS" -I{} bash -c 'row {}'
+  for n in $ser; do row $n; done
+  git -C /repo worktree prune
+  rm -rf /tmp/seedmatrix
+  exit 0
+fi
 for n in $names; do
   d=seeded/$n
   [ -f $d/patch.diff ] || continue
@@ -20,20 +50,7 @@ for n in $names; do
   rc=$?
   git -C /repo checkout -- .
   secs=$(( $(date +%s)-s ))
-  python3 - "$d" "$id" "$rc" "$secs" "/tmp/seedmatrix/$n.log" <<'PY'
-import json,sys,os,re
-d,id,rc,secs,log=sys.argv[1:]
-t=open(log,errors='replace').read()
-sigs=sorted(set(re.findall(r'^  signature: (.*)$',t,flags=re.M)))[:4]
-p=os.path.join(d,'verification.json')
-v=json.load(open(p)) if os.path.exists(p) else {}
-v.update({'confirmed':'tools/seedverify.sh: applies to /repo HEAD, builds, 75 PASS / 0 FAIL with the change, demonstration fails with it and passes without it',
-  'ran':'git -C /repo apply patch.diff; ./run.sh %s quick; git -C /repo checkout -- .'%id,
-  'exit_code':int(rc),'seconds':int(secs),'signatures':sigs,
-  'now':('caught (exit 1, VIOLATION): '+'; '.join(s[:90] for s in sigs[:2])) if rc=='1' and 'VIOLATION property='+id in t else 'MISSED (exit %s)'%rc})
-json.dump(v,open(p,'w'),indent=1)
-print(os.path.basename(d),id,'rc='+rc,secs+'s',v['now'][:120])
-PY
+  python3 "$HERE/tools/seedmatrix_row.py" "$d" "$id" "$rc" "$secs" "/tmp/seedmatrix/$n.log"
 done
 rm -rf /tmp/seedmatrix
 [ -n "$(git -C /repo status --porcelain)" ] && echo "WARNING: /repo not clean after the run"
